@@ -186,15 +186,86 @@ def ofLengthDFA (fin : List Int) : DFA Int α :=
   { states := akeys (ofLengthTable syms n cnt), syms := syms, trans := ofLengthTable syms n cnt,
     init := 0, finals := fin, allowPartial := false }
 
-theorem ofLength_eq (minLen : Int) (maxLen : Option Int) (count : Option (List α)) :
-    ofLength syms minLen maxLen count =
+theorem ofLengthCore_eq (minLen : Int) (maxLen : Option Int) :
+    ofLengthCore syms minLen maxLen cnt =
       build (ofLengthDFA syms
-        (match maxLen with | none => minLen.toNat | some mx => (mx + 1).toNat) (count.getD syms)
+        (match maxLen with | none => minLen.toNat | some mx => (mx + 1).toNat) cnt
         (match maxLen with
           | none => [nat minLen.toNat]
           | some mx => (List.range (mx + 1 - minLen).toNat).map fun j => minLen + nat j)) := by
-  unfold ofLength ofLengthDFA ofLengthTable
+  unfold ofLengthCore ofLengthDFA ofLengthTable
   cases maxLen <;> rfl
+
+/-! The three branches of `of_length` (fix bcfb456: two early returns before the ladder). -/
+
+theorem isDisjoint_iff : isDisjoint syms cnt = true ↔ ∀ a ∈ syms, a ∉ cnt := by
+  simp [isDisjoint]
+
+theorem isDisjoint_eq_false_iff : isDisjoint syms cnt = false ↔ ∃ a, a ∈ syms ∧ a ∈ cnt := by
+  rw [← Bool.not_eq_true, isDisjoint_iff]
+  simp
+
+theorem zeroInRange_iff (minLen : Int) (maxLen : Option Int) :
+    zeroInRange minLen maxLen = true ↔ minLen ≤ 0 ∧ ∀ mx, maxLen = some mx → 0 ≤ mx := by
+  cases maxLen <;> simp [zeroInRange]
+
+theorem emptyRange_iff (minLen : Int) (maxLen : Option Int) :
+    emptyRange minLen maxLen = true ↔ ∃ mx, maxLen = some mx ∧ (mx < minLen ∨ mx < 0) := by
+  cases maxLen with
+  | none => simp [emptyRange]
+  | some mx => simp only [emptyRange, decide_eq_true_eq, Option.some.injEq, exists_eq_left']; omega
+
+/-- No symbol of the alphabet is counted: `universal_language` / `empty_language`. -/
+theorem ofLength_eq_disjoint (minLen : Int) (maxLen : Option Int) (count : Option (List α))
+    (h : isDisjoint syms (count.getD syms) = true) :
+    ofLength syms minLen maxLen count =
+      build (loopDFA 0 syms (zeroInRange minLen maxLen)) := by
+  unfold ofLength
+  simp only [h]
+  cases zeroInRange minLen maxLen <;> rfl
+
+/-- Empty range of lengths: `empty_language`. -/
+theorem ofLength_eq_emptyRange (minLen : Int) (maxLen : Option Int) (count : Option (List α))
+    (h : isDisjoint syms (count.getD syms) = false) (h2 : emptyRange minLen maxLen = true) :
+    ofLength syms minLen maxLen count = build (loopDFA 0 syms false) := by
+  unfold ofLength
+  simp only [h, h2]
+  rfl
+
+/-- Otherwise: the ladder. -/
+theorem ofLength_eq (minLen : Int) (maxLen : Option Int) (count : Option (List α))
+    (h : isDisjoint syms (count.getD syms) = false) (h2 : emptyRange minLen maxLen = false) :
+    ofLength syms minLen maxLen count =
+      build (ofLengthDFA syms
+        (match (generalizing := false) maxLen with
+          | none => minLen.toNat | some mx => (mx + 1).toNat) (count.getD syms)
+        (match (generalizing := false) maxLen with
+          | none => [nat minLen.toNat]
+          | some mx => (List.range (mx + 1 - minLen).toNat).map fun j => minLen + nat j)) := by
+  rw [← ofLengthCore_eq]
+  unfold ofLength
+  simp only [h, h2]
+
+/-- The call made by `nth_from_start` / `nth_from_end` over a one-symbol alphabet (everything is
+counted, no maximum): always the ladder. -/
+theorem ofLength_eq_all (minLen : Int) (hne : syms ≠ []) :
+    ofLength syms minLen none none =
+      build (ofLengthDFA syms minLen.toNat syms [nat minLen.toNat]) := by
+  refine ofLength_eq syms minLen none none ?_ rfl
+  rw [isDisjoint_eq_false_iff]
+  cases syms with
+  | nil => exact absurd rfl hne
+  | cons a t => exact ⟨a, by simp, by simp⟩
+
+/-- Nothing counted: the counted length of every word over the alphabet is `0`. -/
+theorem countIn_eq_zero_of_disjoint {syms cnt : List α} (h : ∀ a ∈ syms, a ∉ cnt) {w : List α}
+    (hw : Over syms w) : countIn cnt w = 0 := by
+  induction w with
+  | nil => rfl
+  | cons a w ih =>
+    rw [over_cons] at hw
+    rw [countIn_cons, ih hw.2]
+    simp [h a hw.1]
 
 theorem ofLength_lookup (i : Nat) :
     alookup (nat i) (ofLengthTable syms n cnt) =
